@@ -1,13 +1,14 @@
 package main
 
 import (
-	"regexp"
 	"bytes"
 	"context"
 	"fmt"
 	"os"
 	"os/exec"
 	"path/filepath"
+	"regexp"
+	"sort"
 	"strings"
 	"sync"
 	"time"
@@ -704,4 +705,88 @@ func dischargeIncremental(fr *FuncResult, o *Obligation, dir string, timeoutMs i
 		}
 	}
 	o.Seconds = time.Since(t0).Seconds()
+}
+
+// crossCheck (thorough tier): every obligation that was discharged by one SMT
+// solver is given to a second, independent solver (z3 4.8 for goals decided by
+// z3 5.1, and the other way round; cvc5 if both were involved) on the full,
+// unsliced query. The outcome is evidence about the discharge, not about the
+// property: agreement, second solver undecided, or contradiction (second
+// solver reports a model). Contradictions are returned for the report.
+type crossResult struct {
+	checked, agree, undecided int
+	contradictions            []string
+}
+
+func crossCheck(items []workItem, budgetMs int, workers int) crossResult {
+	dir, err := os.MkdirTemp(scratchRoot(), "govc-x-")
+	if err != nil {
+		return crossResult{}
+	}
+	defer os.RemoveAll(dir)
+	type job struct {
+		fr *FuncResult
+		o  *Obligation
+		q  string
+		nm string
+	}
+	var jobs []job
+	for _, it := range items {
+		o := it.o
+		if o.Status != "unsat" || o.Expect == "sat" || o.Solver == "syntactic" || o.Solver == "ground" || o.Kind == "regeneration" || o.Kind == "dispatch" {
+			continue
+		}
+		if len(o.Subs) > 0 {
+			for k, sg := range o.Subs {
+				tmp := &Obligation{Name: o.Name, Prefix: sg.Prefix, Cond: sg.Cond, Goal: sg.Goal, Extra: sg.Extra, Expect: o.Expect, NoStatics: o.NoStatics}
+				jobs = append(jobs, job{it.fr, o, queryText(it.fr, tmp), fmt.Sprintf("%s (sub-goal %d)", o.Name, k+1)})
+			}
+			continue
+		}
+		jobs = append(jobs, job{it.fr, o, queryText(it.fr, o), o.Name})
+	}
+	var mu sync.Mutex
+	res := crossResult{}
+	var wg sync.WaitGroup
+	ch := make(chan int)
+	for w := 0; w < workers; w++ {
+		wg.Add(1)
+		go func() {
+			defer wg.Done()
+			for i := range ch {
+				j := jobs[i]
+				second := solvers[1] // z3 4.8
+				if strings.HasPrefix(j.o.Solver, "z3") && !strings.HasPrefix(j.o.Solver, "z3-new") {
+					second = solvers[0]
+				}
+				file := filepath.Join(dir, fmt.Sprintf("x%06d.smt2", i))
+				if len(j.q) > 8<<20 || os.WriteFile(file, []byte(j.q), 0o644) != nil {
+					continue
+				}
+				r := runSolver(second, file, budgetMs)
+				if r.status != "unsat" && r.status != "sat" {
+					r = runSolver(solvers[2], file, budgetMs) // cvc5
+				}
+				os.Remove(file)
+				mu.Lock()
+				res.checked++
+				switch r.status {
+				case "unsat":
+					res.agree++
+				case "sat":
+					res.contradictions = append(res.contradictions, fmt.Sprintf("%s: discharged by %s, %s reports a model", j.nm, j.o.Solver, r.solver))
+				default:
+					res.undecided++
+				}
+				mu.Unlock()
+			}
+		}()
+	}
+	for i := range jobs {
+		ch <- i
+	}
+	close(ch)
+	wg.Wait()
+	sort.Strings(res.contradictions)
+	return res
 }
